@@ -334,7 +334,10 @@ fn generate_family(id: &str, run_seed: u64, _thorough: bool) -> Plan {
             }
         }
         "C13" => {
-            if pick >= 94 {
+            if pick >= 97 {
+                // a subscription deleted while the topic's mailbox is full: the topic's listing afterwards
+                f_topicburst(run_seed)
+            } else if pick >= 92 {
                 // overlapping deletes of a topic, one of them slow, while the name is created again:
                 // what the listings say afterwards
                 f_retopic(run_seed)
